@@ -460,7 +460,9 @@ func (g *Gen) Malformed() *Call {
 		return c
 	case 4:
 		kind := g.pick("iq", "message", "presence")
-		c := &Call{Kind: "sendx", SKind: kind, API: "Send" + capital[kind], Src: mut(), Fail: fail}
+		// Wait: should the mutated stream still be a stanza that expects a response,
+		// the wait is ended as soon as the call reaches it
+		c := &Call{Kind: "sendx", SKind: kind, API: "Send" + capital[kind], Src: mut(), Fail: fail, Wait: true}
 		if g.R.Bool() {
 			t2 := g.Elem(kind, true)
 			g.setType(t2, "error")
